@@ -27,7 +27,8 @@ Inductive rres (A : Type) := RDone (a : A) | RRaise (e : exn).
 Arguments RDone {A}. Arguments RRaise {A}.
 (* what a reader leaves behind: remaining choices, bytes still available on the socket, local buffer *)
 Definition rstate : Type := list choice * list Z * list Z.
-Definition chunk_len (n : Z) : nat := Z.to_nat (if n <? 1 then 1 else n).
+(* a recv delivers at most n (at least one) of the available bytes *)
+Definition chunk_len (n : Z) (avail : list Z) : nat := Z.to_nat (Z.min (if n <? 1 then 1 else n) (zlen avail)).
 
 (* ---- _readline(sock, buf) -> (buf', line); acc is b"".join(chunks) ---- *)
 Definition readline_check (acc buf : list Z) : option (list Z * list Z) :=      (* (line, buf') *)
@@ -53,7 +54,7 @@ Fixpoint readline (cs : list choice) (avail acc buf : list Z) (n : nat) : rres (
     | CChunk k :: cs' =>
         match avail with
         | [] => (RRaise WouldBlock, (cs', [], acc ++ buf), S n)
-        | _ => readline cs' (skipn (chunk_len k) avail) (acc ++ buf) (firstn (chunk_len k) avail) (S n)
+        | _ => readline cs' (skipn (chunk_len k avail) avail) (acc ++ buf) (firstn (chunk_len k avail) avail) (S n)
         end
     end
   end.
@@ -85,8 +86,8 @@ Fixpoint readvalue_recv (cs : list choice) (avail acc : list Z) (started : bool)
       match avail with
       | [] => (RRaise WouldBlock, (cs', [], acc), S n)
       | _ =>
-        let buf := firstn (chunk_len k) avail in
-        let avail' := skipn (chunk_len k) avail in
+        let buf := firstn (chunk_len k avail) avail in
+        let avail' := skipn (chunk_len k avail) avail in
         if rlen - zlen buf >? 0 then
           let '(acc', started', rlen') := rv_absorb acc started rlen buf in
           readvalue_recv cs' avail' acc' started' rlen' (S n)
@@ -124,7 +125,7 @@ Fixpoint readsegment (cs : list choice) (avail tok buf : list Z) (n : nat) : rre
     | CChunk k :: cs' =>
         match avail with
         | [] => (RRaise WouldBlock, (cs', [], buf), S n)
-        | _ => readsegment cs' (skipn (chunk_len k) avail) tok (buf ++ firstn (chunk_len k) avail) (S n)
+        | _ => readsegment cs' (skipn (chunk_len k avail) avail) tok (buf ++ firstn (chunk_len k avail) avail) (S n)
         end
     end
   end.
